@@ -343,7 +343,22 @@ def gen_case(rng):
 
 
 def corpus():
-    return []
+    """fixed cases run first: semantic edits that earlier seeded changes turned into 'device unchanged'"""
+    out = []
+
+    def case(rule, edited, seed):
+        tabs = {'filter': {'INPUT': dict(policy='DROP', rules=[rule, [(False, '-j', ['ACCEPT'])]])}}
+        forced = {'filter': {'INPUT': dict(policy='DROP', rules=[edited, [(False, '-j', ['ACCEPT'])]])}}
+        return dict(al=[], bl=[], tabs=tabs, raw=None, app=None, v6=None, edit=True, seed=seed, forced=forced)
+    # a mark set under a mask is not the plain mark (seed C05-2)
+    out.append(case([(False, '-s', ['10.1.1.1']), (False, '-j', ['MARK']), (False, '--set-mark', ['10'])],
+                    [(False, '-s', ['10.1.1.1']), (False, '-j', ['MARK']), (False, '--set-xmark', ['0xa/0xff'])], 11))
+    out.append(case([(False, '-j', ['MARK']), (False, '--set-xmark', ['0x1/0xff'])],
+                    [(False, '-j', ['MARK']), (False, '--set-xmark', ['0x1/0xffff'])], 12))
+    # another option without argument in the place of one (seed C05-3)
+    out.append(case([(False, '-j', ['LOG']), (False, '--log-level', ['7']), (False, '--log-ip-options', [])],
+                    [(False, '-j', ['LOG']), (False, '--log-level', ['7']), (False, '--log-tcp-options', [])], 13))
+    return out
 
 
 def build_files(case):
@@ -403,7 +418,10 @@ def main(ctx):
                         expect_equal = False
             else:
                 t2 = src
-                if c['edit']:
+                if c.get('forced') is not None:
+                    t2 = c['forced']
+                    expect_equal = False
+                elif c['edit']:
                     e = edit_tables(rng, src)
                     if e is not None and sem_norm(e) != sem_norm(src):
                         t2 = e
